@@ -34,21 +34,69 @@ func longDep() {
 }
 
 var longSpecMs int
+var longNextEarly int32
+var longNextWatch *int32
 
-// a call returns only after what it named has finished, however long that takes: no give-up by the clock
+func longNext(tag int) {
+	if atomic.LoadInt32(longNextWatch) != 1 {
+		atomic.StoreInt32(&longNextEarly, 1)
+	}
+}
+
+// a call returns only after what it named has finished, however long that takes: no give-up by the clock.
+// Phase 1 (always, NOT verbose): a dependency another call has in flight for 3 s; a serial call naming it waits for it before
+// starting its next member.  Phase 2 (ms > 5000, verbose): a dependency running for ms; exactly one "Running dependency:" line.
 func longProbe(ms int) string {
 	if ms <= 0 {
 		return ""
 	}
+	os.Setenv("MAGEFILE_VERBOSE", "0")
+	if msg := waitFor(waitDep, 3000, &waitDone); msg != "" {
+		return msg
+	}
+	if ms <= 5000 {
+		return ""
+	}
 	longSpecMs = ms
+	os.Setenv("MAGEFILE_VERBOSE", "1")
+	fmt.Fprintln(os.Stderr, "LPROBE-BEGIN")
+	msg := waitFor(longDep, ms, &longDone)
+	fmt.Fprintln(os.Stderr, "LPROBE-END")
+	os.Setenv("MAGEFILE_VERBOSE", "0")
+	return msg
+}
+
+var waitDone int32
+
+func waitDep() { time.Sleep(3 * time.Second); atomic.StoreInt32(&waitDone, 1) }
+
+func waitFor(dep func(), ms int, done *int32) string {
 	t0 := time.Now()
+	longNextWatch = done
+	atomic.StoreInt32(&longNextEarly, 0)
+	started := make(chan struct{})
+	otherDone := make(chan struct{})
+	go func() {
+		defer close(otherDone)
+		defer func() { recover() }()
+		close(started)
+		mg.Deps(dep)
+	}()
+	<-started
+	time.Sleep(100 * time.Millisecond)
 	panicked := false
 	func() {
 		defer func() { panicked = recover() != nil }()
-		mg.SerialDeps(longDep)
+		mg.SerialDeps(dep, mg.F(longNext, ms))
 	}()
-	if panicked || atomic.LoadInt32(&longDone) != 1 {
-		return fmt.Sprintf("SerialDeps(dependency taking %d ms) ended after %d ms (panicked: %v) while the dependency had not finished", ms, time.Since(t0).Milliseconds(), panicked)
+	early := atomic.LoadInt32(&longNextEarly) != 0
+	unfinished := atomic.LoadInt32(done) != 1
+	<-otherDone
+	if panicked || unfinished {
+		return fmt.Sprintf("SerialDeps(dependency taking %d ms, next) ended after %d ms (panicked: %v) while the dependency had not finished", ms, time.Since(t0).Milliseconds(), panicked)
+	}
+	if early {
+		return fmt.Sprintf("SerialDeps(dependency in flight elsewhere for %d ms, next): next was started before the dependency had finished", ms)
 	}
 	return ""
 }
@@ -395,6 +443,29 @@ func invSlow() {
 func invSlowCtx(context.Context) error { invSlow(); return nil }
 func invBad() int                      { return 1 }
 
+var slCount [4]int32
+var slOrderBad int32
+
+func slA() { atomic.AddInt32(&slCount[0], 1) }
+func slB() {
+	if atomic.LoadInt32(&slCount[0]) != 1 {
+		atomic.StoreInt32(&slOrderBad, 1)
+	}
+	atomic.AddInt32(&slCount[1], 1)
+}
+func slC() {
+	if atomic.LoadInt32(&slCount[1]) != 1 {
+		atomic.StoreInt32(&slOrderBad, 1)
+	}
+	atomic.AddInt32(&slCount[2], 1)
+}
+func slD() {
+	if atomic.LoadInt32(&slCount[2]) != 1 {
+		atomic.StoreInt32(&slOrderBad, 1)
+	}
+	atomic.AddInt32(&slCount[3], 1)
+}
+
 func invalidProbe() map[string]interface{} {
 	res := map[string]interface{}{}
 	try := func(name string, call func()) {
@@ -419,6 +490,16 @@ func invalidProbe() map[string]interface{} {
 		time.Sleep(450 * time.Millisecond)
 		res[name] = map[string]bool{"panicked": panicked, "unwound_while_running": running || atomic.LoadInt32(&invOverlap) == 1}
 	}
+	// a SLICE of dependencies as one argument: either it is refused (the call panics and nothing it named runs) or it is
+	// taken as the dependencies it holds - then a serial call runs ALL of them and what follows, in order
+	slPanicked := false
+	func() {
+		defer func() { slPanicked = recover() != nil }()
+		mg.SerialDeps([]interface{}{slA, slB}, slC, slD)
+	}()
+	a, b, c, d := atomic.LoadInt32(&slCount[0]), atomic.LoadInt32(&slCount[1]), atomic.LoadInt32(&slCount[2]), atomic.LoadInt32(&slCount[3])
+	res["SerialDeps([]interface{}{A, B}, C, D)"] = map[string]bool{"panicked": true,
+		"unwound_while_running": !((slPanicked && a+b+c+d == 0) || (!slPanicked && a == 1 && b == 1 && c == 1 && d == 1 && atomic.LoadInt32(&slOrderBad) == 0))}
 	try("Deps(slow, 42)", func() { mg.Deps(invSlow, 42) })
 	try("CtxDeps(slowctx, badfunc)", func() { mg.CtxDeps(context.Background(), invSlowCtx, invBad) })
 	return res
